@@ -115,7 +115,7 @@ CLAIMED['C09'] = dict(
          'preemption bound. At quiescence nobody is blocked, every seal succeeded, the counters in the returned headers are pairwise distinct per group, gap-free and increasing per '
          'sender, the stored chain key stands at the number of messages sealed, and a receiver that registered the announcement opens every envelope to its payload.',
     note=TB.replace('Schedule-symbolic BMC: goroutine bodies executed in open mode by the interpreter (visible operations recorded, reads symbolic), one formula per tuple of '
-                    'operation sequences with free who_k/stop variables; stuck states, assertions and unwinding assertions decided by z3. ', '') +
+                    'operation sequences with free who_k/stop variables; stuck states, assertions and unwinding assertions decided by z3. ', '').replace('engine/wesym/bmc.py', 'engine/wesym/coop.py') +
          'Bounds: 2 senders x 1 message on one and on two groups, first use of a group by two goroutines, the own announcement replayed while sending (quick); 2x2, 3x1 and higher preemption bounds (thorough). '
          'The one-formula BMC harness (VerifC09Concurrent) is kept but no longer registered: it did not finish in 40 minutes once the keystore was executed for real. '
          'Assumes sequential consistency and data-race freedom w.r.t. the synchronisation operations. Outside: receivers running concurrently.',
